@@ -486,6 +486,8 @@ type stepStats struct {
 	msgs, reached, nontrivial int
 	fullBlockRequested        bool // a getdata for a full block went to this peer (in-progress entry without collector)
 	inProgressMax             int
+	tickSingleExpired         bool   // a tick ran with exactly one, expired, penalty on record
+	tickExpiredThenFresh      bool   // a tick ran with an expired penalty followed by a fresh one
 	memInputs                 uint64 // gocoin's TxInputInMemory counter
 	txTrailing                int    // tx messages with bytes after a well-formed transaction that reached ParseTxNet
 	addrFlood                 uint64 // gocoin's BanAddrFlood counter
@@ -540,13 +542,60 @@ func runSeq(cs seqCase, st *stepStats) (err error) {
 		}
 	}()
 
+	knownHit := ""
+	defer func() {
+		if err == nil && knownHit != "" {
+			err = errKnown{knownHit}
+		}
+	}()
 	var ms runtime.MemStats
 	runtime.ReadMemStats(&ms)
 	alloc0 := ms.TotalAlloc
 	var plBytes uint64
 
+	// the penalties the peer has earned on the current connection and how long ago (model for the expiry oracle)
+	type penalty struct {
+		amt int
+		age int64
+	}
+	var penalties []penalty
+	score := 0
+	// endConnection: Run() leaves its loop; a later message of the case arrives on a new connection
+	endConnection := func() error {
+		if err := guarded("the part of Run() after its loop", func() { finish(c) }); err != nil {
+			return err
+		}
+		if err := locksFree(c); err != nil {
+			return fmt.Errorf("after the connection ended, %v", err)
+		}
+		releaseConn(c)
+		serial++
+		c = newConn(cs.Incoming, cs.Special, serial)
+		penalties, score = nil, 0
+		return errReconnect
+	}
+
 	deliver := func(m *msg) error {
+		if m.Cmd == "#clock" {
+			c.VerifAdvanceClock(time.Duration(m.Secs)*time.Second, !m.Idle)
+			for i := range penalties {
+				penalties[i].age += int64(m.Secs)
+			}
+			return nil
+		}
 		if m.Cmd == "#tick" {
+			if st != nil && c.X.VersionReceived {
+				old, fresh := 0, 0
+				for _, p := range penalties {
+					if p.age >= 3600 {
+						old++
+					} else {
+						fresh++
+					}
+				}
+				st.tickSingleExpired = st.tickSingleExpired || (old == 1 && fresh == 0)
+				st.tickExpiredThenFresh = st.tickExpiredThenFresh || (old > 0 && fresh > 0)
+			}
 			if err := guarded("the loop's periodic part (SendInvs/Tick/resume getdata)", func() {
 				if c.X.VersionReceived {
 					c.SendInvs()
@@ -561,7 +610,42 @@ func runSeq(cs seqCase, st *stepStats) (err error) {
 				st.inProgressMax = max(st.inProgressMax, len(c.GetBlockInProgress))
 				c.Mutex.Unlock()
 			}
-			return locksFree(c)
+			if err := locksFree(c); err != nil {
+				return err
+			}
+			// penalties expire no earlier than an hour after they were earned: the score is at least the sum
+			// of what was earned less than an hour (minus a margin for the seconds this case has been running) ago
+			if banned, _ := c.VerifBanned(); !banned {
+				due, expiredBeforeFresh, seenOld := 0, false, false
+				for _, p := range penalties {
+					if p.age < 3600-30 {
+						due += p.amt
+						expiredBeforeFresh = expiredBeforeFresh || seenOld
+					} else if p.age >= 3600 {
+						seenOld = true
+					}
+				}
+				if have := c.VerifMisbehave(); have < due {
+					err := fmt.Errorf("after %d s on the connection the misbehaviour score is %d, although %d points were earned less than an hour ago (penalties expire too early)", penalties[0].age, have, due)
+					if expiredBeforeFresh && pbt.FindingOpen(keyExpireOrder) {
+						knownHit = keyExpireOrder
+					} else {
+						return err
+					}
+				}
+				score = c.VerifMisbehave()
+				keep := penalties[:0]
+				for _, p := range penalties {
+					if p.age < 3600 {
+						keep = append(keep, p)
+					}
+				}
+				penalties = keep
+			}
+			if c.IsBroken() { // a time-out ended the connection
+				return endConnection()
+			}
+			return nil
 		}
 		pl := resolve(e, c, m)
 		if m.Cmd == "addr" {
@@ -645,18 +729,12 @@ func runSeq(cs seqCase, st *stepStats) (err error) {
 				st.genuineAccepted++
 			}
 		}
+		if now := c.VerifMisbehave(); now > score { // the message earned the peer a penalty
+			penalties = append(penalties, penalty{amt: now - score})
+			score = now
+		}
 		if leave || c.IsBroken() {
-			// Run() leaves its loop; a later message of the case arrives on a new connection
-			if err := guarded("the part of Run() after its loop", func() { finish(c) }); err != nil {
-				return err
-			}
-			if err := locksFree(c); err != nil {
-				return fmt.Errorf("after the connection ended, %v", err)
-			}
-			releaseConn(c)
-			serial++
-			c = newConn(cs.Incoming, cs.Special, serial)
-			return errReconnect
+			return endConnection()
 		}
 		return nil
 	}
@@ -714,6 +792,11 @@ func runSeq(cs seqCase, st *stepStats) (err error) {
 }
 
 var errReconnect = fmt.Errorf("reconnect")
+
+// errKnown: the only disagreement of the case lies in the class of an open known finding.
+type errKnown struct{ key string }
+
+func (e errKnown) Error() string { return "known finding " + e.key }
 
 // harvestCounters adds gocoin's own event counters of the finished case to the evidence: they show how
 // deep into the handlers the generated messages got (headers accepted, blocks queued, transactions
@@ -849,6 +932,13 @@ func genSeqCase(t *rapid.T) seqCase {
 		cs.Tags = append(g.tags, "addr_flood")
 		return cs
 	}
+	if cs.Peers == "" && cs.Queues == "" && g.chance(6) {
+		// the time dimension (see clockScenario)
+		cs.Handshake = true
+		cs.Msgs = append(g.clockScenario(), g.sequence(5)...)
+		cs.Tags = append(g.tags, "clock")
+		return cs
+	}
 	if cs.Peers == "" && cs.Queues == "" && g.chance(5) {
 		// taproot spends that reach script verification in the mempool (see taprootSpendScenario)
 		cs.Handshake, cs.Syncing = true, false
@@ -975,7 +1065,7 @@ func classify(r *pbt.Run, cs seqCase) {
 		for _, c := range cmds19 {
 			known = known || c == name
 		}
-		if name == "#tick" {
+		if name == "#tick" || name == "#clock" {
 			name = "tick"
 		} else if !known {
 			name = "other"
@@ -1065,6 +1155,16 @@ func TestHandlerSequences(t *testing.T) {
 		if st.namedInProgress > 0 {
 			r.Class("state/message_names_block_in_progress")
 			pbt.AddExtra("messages_naming_a_block_in_progress", int64(st.namedInProgress))
+		}
+		if st.tickSingleExpired {
+			r.Class("clock/tick_with_single_expired_penalty")
+		}
+		if st.tickExpiredThenFresh {
+			r.Class("clock/tick_with_expired_then_fresh_penalty")
+		}
+		if ek, ok := err.(errKnown); ok {
+			r.Excluded(ek.key)
+			return
 		}
 		if err != nil {
 			if key := knownClass(cs.Msgs, err); key != "" {
